@@ -8,6 +8,7 @@ mod progs;
 mod c08;
 mod c13;
 mod c15;
+mod c05;
 mod c06;
 mod c07;
 mod c14;
@@ -79,6 +80,7 @@ fn main() {
                 "C08" => c08::generate(&mut em, seed, thorough),
                 "C13" => c13::generate(&mut em, seed, thorough),
                 "C15" => c15::generate(&mut em, seed, thorough),
+                "C05" => c05::generate(&mut em, seed, thorough),
                 "C06" => c06::generate(&mut em, seed, thorough),
                 "C07" => c07::generate(&mut em, seed, thorough),
                 "C14" => c14::generate(&mut em, seed, thorough),
